@@ -60,8 +60,12 @@ func genSysProgram(t *rapid.T) SProgram {
 		if rapid.IntRange(0, 2).Draw(t, "freshtarget") == 0 {
 			p.Ops = append(p.Ops, SOp{K: "reconnect", Node: n, Str: "fresh"})
 		}
-		p.Ops = append(p.Ops, SOp{K: "sysrebuild", Node: n, N: int64(rapid.IntRange(0, 12).Draw(t, "fgwrites")), Seed: rapid.IntRange(1, 5000).Draw(t, "seed"),
-			Len: int64(rapid.IntRange(0, 400).Draw(t, "gapms")), Reps: rapid.IntRange(0, 1).Draw(t, "aligned")})
+		sr := SOp{K: "sysrebuild", Node: n, N: int64(rapid.IntRange(0, 12).Draw(t, "fgwrites")), Seed: rapid.IntRange(1, 5000).Draw(t, "seed"),
+			Len: int64(rapid.IntRange(0, 400).Draw(t, "gapms")), Reps: rapid.IntRange(0, 1).Draw(t, "aligned")}
+		if rapid.IntRange(0, 2).Draw(t, "portbusy") == 0 {
+			sr.Str = "portbusy"
+		}
+		p.Ops = append(p.Ops, sr)
 		for k := rapid.IntRange(0, 2).Draw(t, "suffix"); k > 0; k-- {
 			if rapid.Bool().Draw(t, "sk") {
 				off := rapid.Int64Range(0, total-1).Draw(t, "roff")
